@@ -152,13 +152,13 @@ func (e *Env) Tr(x *Expr) TTerm {
 		if a.Sort == "Str" && b.Sort == "Str" {
 			switch x.Op {
 			case "<":
-				return TTerm{S: "(str.lt " + a.S + " " + b.S + ")", Sort: "Bool"}
+				return TTerm{S: "(gs.lt " + a.S + " " + b.S + ")", Sort: "Bool"}
 			case ">":
-				return TTerm{S: "(str.lt " + b.S + " " + a.S + ")", Sort: "Bool"}
+				return TTerm{S: "(gs.lt " + b.S + " " + a.S + ")", Sort: "Bool"}
 			case "<=":
-				return TTerm{S: "(not (str.lt " + b.S + " " + a.S + "))", Sort: "Bool"}
+				return TTerm{S: "(not (gs.lt " + b.S + " " + a.S + "))", Sort: "Bool"}
 			default:
-				return TTerm{S: "(not (str.lt " + a.S + " " + b.S + "))", Sort: "Bool"}
+				return TTerm{S: "(not (gs.lt " + a.S + " " + b.S + "))", Sort: "Bool"}
 			}
 		}
 		return TTerm{S: "(" + x.Op + " " + a.S + " " + b.S + ")", Sort: "Bool"}
@@ -206,7 +206,7 @@ func (e *Env) Tr(x *Expr) TTerm {
 			}
 			return TTerm{S: fmt.Sprintf("(select (select %s (sref %s)) (+ (soff %s) %s))", e.seq(es), a.S, a.S, i.S), Sort: es, T: et}
 		case "Str":
-			return TTerm{S: "(str.at " + a.S + " " + i.S + ")", Sort: "Int"}
+			return TTerm{S: "(gs.at " + a.S + " " + i.S + ")", Sort: "Int"}
 		}
 		if strings.HasPrefix(a.Sort, "(Array Int ") {
 			return TTerm{S: "(select " + a.S + " " + i.S + ")", Sort: strings.TrimSuffix(strings.TrimPrefix(a.Sort, "(Array Int "), ")")}
@@ -218,7 +218,7 @@ func (e *Env) Tr(x *Expr) TTerm {
 		case "Slice":
 			return TTerm{S: fmt.Sprintf("(mkslice (sref %s) (+ (soff %s) %s) (- %s %s) (- (scap %s) %s))", a.S, a.S, i.S, j.S, i.S, a.S, i.S), Sort: "Slice", T: a.T}
 		case "Str":
-			return TTerm{S: "(str.sub " + a.S + " " + i.S + " " + j.S + ")", Sort: "Str"}
+			return TTerm{S: "(gs.sub " + a.S + " " + i.S + " " + j.S + ")", Sort: "Str"}
 		}
 		return e.fail("cannot slice sort %s", a.Sort)
 	case "field":
@@ -255,7 +255,7 @@ func (e *Env) eq(a, b TTerm, x *Expr) string {
 		return "false"
 	}
 	if a.Sort == "Str" {
-		return "(str.eq " + a.S + " " + b.S + ")"
+		return "(gs.eq " + a.S + " " + b.S + ")"
 	}
 	return "(= " + a.S + " " + b.S + ")"
 }
@@ -329,10 +329,10 @@ func (e *Env) call(x *Expr) TTerm {
 		case "Slice":
 			return I("(slen " + a[0].S + ")")
 		case "Str":
-			return I("(str.len " + a[0].S + ")")
+			return I("(gs.len " + a[0].S + ")")
 		case "Int":
 			_, _, c := e.mapFams()
-			return I("(select " + c + " " + a[0].S + ")")
+			return I("(ite (= " + a[0].S + " 0) 0 (select " + c + " " + a[0].S + "))")
 		}
 		return e.fail("len of sort %s", a[0].Sort)
 	case "cap":
@@ -469,9 +469,9 @@ func (e *Env) call(x *Expr) TTerm {
 	case "hi":
 		return un("shi", "Int")
 	case "runes":
-		return un("str.runes", "Int")
+		return un("gs.runes", "Int")
 	case "aligned":
-		return un("str.aligned", "Bool")
+		return un("gs.aligned", "Bool")
 	case "nr":
 		if need(1) {
 			return I("(nr (sbase " + a[0].S + "))")
@@ -592,7 +592,11 @@ func (e *Env) call(x *Expr) TTerm {
 	if al, ok := aliases[x.Name]; ok {
 		var as []string
 		for _, t := range a {
-			as = append(as, t.S)
+			if byKey[al[0]] && t.Sort == "Str" {
+				as = append(as, "(skey "+t.S+")")
+			} else {
+				as = append(as, t.S)
+			}
 		}
 		if len(as) == 0 {
 			return TTerm{S: al[0], Sort: al[1]}
@@ -600,6 +604,15 @@ func (e *Env) call(x *Expr) TTerm {
 		return TTerm{S: "(" + al[0] + " " + strings.Join(as, " ") + ")", Sort: al[1]}
 	}
 	switch x.Name {
+	case "bytesSrc":
+		if need(1) {
+			e.g.Family("BY_src", "(Array Int Str)")
+			return TTerm{S: "(select " + e.famOf("BY_src") + " (sref " + a[0].S + "))", Sort: "Str"}
+		}
+	case "cellDec":
+		if need(1) {
+			return TTerm{S: "(select " + e.famOf(e.g.CellFamily("Dec")) + " " + a[0].S + ")", Sort: "Dec"}
+		}
 	case "bldLen", "bldRunes", "bldOk":
 		if need(1) {
 			fam := map[string]string{"bldLen": "B_len", "bldRunes": "B_runes", "bldOk": "B_ok"}[x.Name]
@@ -628,11 +641,12 @@ func (e *Env) call(x *Expr) TTerm {
 // aliases: clause-language names for prelude functions (name -> smt symbol, result sort)
 var aliases = map[string][2]string{
 	"decodePost": {"decode.post", "Bool"}, "decodeLastPost": {"decode.lastpost", "Bool"},
-	"strIndex": {"str.index", "Int"}, "strLastIndex": {"str.lastindex", "Int"}, "strHasPrefix": {"str.hasprefix", "Bool"}, "strHasSuffix": {"str.hassuffix", "Bool"},
-	"strToLower": {"str.tolower", "Str"}, "strToUpper": {"str.toupper", "Str"}, "strReplace": {"str.replace", "Str"},
-	"strQuote": {"str.quote", "Str"}, "strItoa": {"str.itoa", "Str"}, "atoiOk": {"atoi.ok", "Bool"}, "atoiVal": {"atoi.val", "Int"},
+	"strIndex": {"gs.index", "Int"}, "strLastIndex": {"gs.lastindex", "Int"}, "strHasPrefix": {"gs.hasprefix", "Bool"}, "strHasSuffix": {"gs.hassuffix", "Bool"},
+	"strToLower": {"gs.tolower", "Str"}, "strToUpper": {"gs.toupper", "Str"}, "strReplace": {"gs.replace", "Str"},
+	"strQuote": {"gs.quote", "Str"}, "strItoa": {"gs.itoa", "Str"}, "atoiOk": {"atoi.ok", "Bool"}, "atoiVal": {"atoi.val", "Int"},
 	"f64IsInf": {"f64.isinf", "Bool"}, "f64IsNaN": {"f64.isnan", "Bool"}, "f64Floor": {"f64.floor", "F64"}, "f64Ceil": {"f64.ceil", "F64"}, "f64Abs": {"f64.abs", "F64"}, "f64Mod": {"f64.mod", "F64"},
 	"f64Add": {"f64.add", "F64"}, "f64Sub": {"f64.sub", "F64"}, "f64Mul": {"f64.mul", "F64"}, "f64Div": {"f64.div", "F64"}, "f64Neg": {"f64.neg", "F64"}, "f64Of32": {"f64.of32", "F64"},
+	"f64InIntRange": {"f64.inintrange", "Bool"}, "f32InIntRange": {"f32.inintrange", "Bool"}, "f32ToInt": {"f32.toint", "Int"}, "f32IsNaN": {"f32.isnan", "Bool"},
 	"f64OfInt": {"f64.ofint", "F64"}, "f64IsInt": {"f64.isint", "Bool"}, "f64ToInt": {"f64.toint", "Int"},
 	"decOfInt": {"dec.ofint", "Dec"}, "decOfF64": {"dec.off64", "Dec"}, "decOfF32": {"dec.off32", "Dec"}, "decParseOk": {"dec.parseok", "Bool"}, "decParse": {"dec.parse", "Dec"},
 	"decCompare": {"dec.compare", "Int"}, "decAbs": {"dec.abs", "Dec"}, "decCeil": {"dec.ceil", "Dec"}, "decFloor": {"dec.floor", "Dec"},
@@ -642,9 +656,13 @@ var aliases = map[string][2]string{
 	"decInt64": {"dec.int64", "Int"}, "decInt64Ok": {"dec.int64ok", "Bool"}, "decStr": {"dec.str", "Str"}, "decIsIntegral": {"dec.isintegral", "Bool"},
 	"decUnmarshal": {"dec.unmarshal", "Dec"}, "decUnmarshalOk": {"dec.unmarshalok", "Bool"}, "decZero": {"dec.zero", "Dec"},
 	"jnumInt64Ok": {"jnum.int64ok", "Bool"}, "jnumInt64": {"jnum.int64", "Int"}, "jnumFloat64Ok": {"jnum.float64ok", "Bool"},
-	"whole": {"str.whole", "Bool"}, "subwindow": {"str.subwindow", "Bool"}, "runesOf": {"str.units", "Int"},
+	"whole": {"gs.whole", "Bool"}, "subwindow": {"gs.subwindow", "Bool"}, "runesOf": {"gs.units", "Int"},
 	"valWF": {"val.wf", "Bool"}, "kindLo": {"kind.lo", "Int"}, "kindHi": {"kind.hi", "Int"},
 }
+
+// byKey: uninterpreted functions of string *contents* (their Str arguments are passed as content keys)
+var byKey = map[string]bool{"dec.parse": true, "dec.parseok": true, "dec.unmarshal": true, "dec.unmarshalok": true, "atoi.ok": true, "atoi.val": true,
+	"jnum.int64": true, "jnum.int64ok": true, "jnum.float64ok": true, "gs.quote": true, "gs.tolower": true, "gs.toupper": true, "gs.replace": true}
 
 // rawFuncs: functions defined in the prelude or via //@ smt lines, name -> result sort.
 var rawFuncs = map[string]string{
